@@ -184,7 +184,7 @@ func R17(p *core.Prog) *core.Result {
 				}
 			}
 		}
-		key := n.Obj().Pkg().Name() + "." + n.Obj().Name()
+		key := n.Obj().Pkg().Name() + "." + core.TypeName(n)
 		if bad != "" {
 			r.Fail(".SINGLETON", key, p.Pos(n.Obj().Pos()),
 				"type "+key+" is instantiated only in package initialisers (shared singleton) but "+bad, "")
@@ -262,11 +262,11 @@ func R17(p *core.Prog) *core.Result {
 			}
 		}
 		if len(loads) == 0 {
-			r.Ok(".LEAK", p.Pos(g.Pos()), "global "+key+" holds run-time-mutable type "+hit.Obj().Name()+" but is never used outside initialisers")
+			r.Ok(".LEAK", p.Pos(g.Pos()), "global "+key+" holds run-time-mutable type "+core.TypeName(hit)+" but is never used outside initialisers")
 		} else {
 			sort.Strings(loads)
 			r.Fail(".LEAK", key, p.Pos(g.Pos()),
-				"package-level variable "+key+" holds a value of type "+hit.Obj().Name()+", which the library mutates at run time ("+mutated[hit]+"), and is used outside initialisers in "+loads[0]+": instances would share mutable state", strings.Join(loads, "; "))
+				"package-level variable "+key+" holds a value of type "+core.TypeName(hit)+", which the library mutates at run time ("+mutated[hit]+"), and is used outside initialisers in "+loads[0]+": instances would share mutable state", strings.Join(loads, "; "))
 		}
 	}
 	r.Stats["globals_of_mutable_type"] = mutableGlobals
@@ -355,8 +355,8 @@ func R17(p *core.Prog) *core.Result {
 			return fks[i].t.String()+fmt.Sprint(fks[i].f) < fks[j].t.String()+fmt.Sprint(fks[j].f)
 		})
 		for _, k := range fks {
-			fname := k.t.Underlying().(*types.Struct).Field(k.f).Name()
-			key := k.t.Obj().Pkg().Name() + "." + k.t.Obj().Name() + "." + fname
+			fname := core.FieldName(k.t.Underlying().(*types.Struct), k.f)
+			key := k.t.Obj().Pkg().Name() + "." + core.TypeName(k.t) + "." + fname
 			if w, bad := through[k]; bad {
 				r.Fail(".ALIASED-FIELD", key, p.Pos(k.t.Obj().Pos()), "instance field "+key+" points into package-level memory "+aliased[k]+" and is written through ("+w+"): one instance changes the table every other instance reads", "")
 			} else {
@@ -391,7 +391,7 @@ func R17(p *core.Prog) *core.Result {
 				continue
 			}
 			pn := namedOf(f.Params[0].Type())
-			if pn == nil || !strings.Contains(strings.ToLower(pn.Obj().Name()), "options") {
+			if pn == nil || !strings.Contains(strings.ToLower(core.TypeName(pn)), "options") {
 				continue
 			}
 			n++
